@@ -453,6 +453,7 @@ APPLY = {
     "first_last_strarr": ("str", _f_first_last, None, "str_array"),
     "first_strarr": ("str", _f_first_arr, None, "str_array"),
     "first_char": ("str1", _f_first, None, "str_scalar_short"),
+    "first_bytes": ("bytes1", _f_first, None, "scalar"),
     # --- trigger class `str_scalar_result`: scalar string results longer than one character
     "first_npstr": ("str", _f_first, None, "str_scalar"),
     "first_pystr": ("str", _f_pystr, None, "str_scalar"),
@@ -479,6 +480,8 @@ def gen_data(rng, kind, n):
         return np.array([NAMES[int(i)] for i in rng.integers(len(NAMES), size=n)], dtype="U5")
     if kind == "str1":
         return np.array([INS[int(i)] for i in rng.integers(len(INS), size=n)], dtype="U1")
+    if kind == "bytes1":
+        return np.array([b"ABCXYZ"[int(i):int(i) + 1] for i in rng.integers(6, size=n)], dtype="S1")
     raise AssertionError(kind)
 
 
